@@ -457,8 +457,6 @@ def seq_oracle(case, events):
             finds.append(("order-not-preserved", "client %d topic %d: accepted in order %s, handed over in order %s"
                           % (c, t, order, got)))
         for m, ai in acc:
-            if m in got:
-                continue
             # still subscribed, and did a poll of c that started after the acceptance complete?
             cut = None
             for j in range(ai + 1, len(events)):
@@ -470,22 +468,27 @@ def seq_oracle(case, events):
                     cut = j
                     break
             later = [j for j in sorted(poll_of) if j > ai and events[j]["c"] == c and (cut is None or poll_of[j] < cut)]
-            waiting = [j for j in sorted(poll_of) if j < ai and poll_of[j] > ai and events[j]["c"] == c]
-            if not later and not waiting:
-                continue       # the client has not polled since: the message may still be cached
+            waiting = [j for j in sorted(poll_of) if j < ai and poll_of[j] > ai and events[j]["c"] == c
+                       and (cut is None or poll_of[j] < cut)]
+            timed_out_waiting = bool(waiting) and events[poll_of[waiting[-1]]]["r"] == "E"
+            if timed_out_waiting and (m in got or not later):
+                finds.append(("waiting-poll-not-woken", "publish of %d to client %d topic %d reported success while the client's poll "
+                              "was waiting, yet that poll ended by its time-out without the message" % (m, c, t)))
+            if m in got or not later:
+                continue       # delivered, or the client has not polled since: the message may still be cached
             prev = [j for j in sorted(poll_of) if poll_of[j] < ai and events[j]["c"] == c]
             after_timeout = bool(prev) and events[poll_of[prev[-1]]]["r"] == "E" and not waiting
             if after_timeout:
                 finds.append((KNOWN_KEY, "publish of %d to client %d topic %d reported success at event %d, after the client's "
                               "previous poll had ended by its time-out and before its next poll; the next poll(s) of the "
                               "client returned without it: the message is lost" % (m, c, t, ai)))
-            elif waiting and events[poll_of[waiting[-1]]]["r"] == "E":
+            elif timed_out_waiting:
                 finds.append(("publish-racing-with-poll-timeout-is-lost", "publish of %d to client %d topic %d reported success "
                               "while the client's poll was waiting; that poll ended by its time-out without the message "
                               "and no later poll returned it" % (m, c, t)))
             else:
                 finds.append(("accepted-message-lost", "publish of %d to client %d topic %d reported success at event %d; "
-                              "the client polled afterwards (events %s) and never got it" % (m, c, t, ai, later or waiting)))
+                              "the client polled afterwards (events %s) and never got it" % (m, c, t, ai, later)))
     return finds
 
 
@@ -600,15 +603,18 @@ FORCED_SCENARIOS = ["timeout-while-popped", "publish-before-register", "heartbea
 FORCED_MODEL = {
     # sub; poll waits; publisher appends and pops the responder; the poll timer fires; publisher answers
     "timeout-while-popped":
-        "S 1 7 sL 1 pd 0 sP1 7 42 1 w 1 3 pt 0 hbs wd 1 sL 1 pd 2 hz",
+        ("S 1 7 sL 1 pd 0 sP1 7 42 1 w 1 3 pt 0 hbs wd 1 pd 0 sL 1 pd 1 hz",
+         {"pub": 7, "poll1": 8, "poll2": 10}),
     # sub; poll finds nothing and stops before registering; a publish completes; the poll registers and
     # waits; its timer fires; the next poll finds the message
     "publish-before-register":
-        "S 1 7 sL 1 p 0 7 sP1 7 42 1 wd 1 pd 0 pt 0 hbs sL 1 pd 2 hz",
+        ("S 1 7 sL 1 p 0 7 sP1 7 42 1 wd 1 pd 0 pt 0 hbs pd 0 sL 1 pd 1 hz",
+         {"pub": 4, "poll1": 8, "poll2": 10}),
     # sub; publish; poll returns the batch and starts a heartbeat goroutine that is held before it
     # registers its signal; the client polls again at once; the heartbeat registers, its timer fires
     "heartbeat-after-repoll":
-        "S 1 7 P1 7 42 1 sL 1 p 0 7 sL 1 pd 2 hbs H pr 2 P1 7 43 1 hz",
+        ("S 1 7 P1 7 42 1 sL 1 pd 0 sL 1 pd 1 hbs H pd 1 P1 7 43 1 hz",
+         {"poll1": 3, "poll2": 8, "pub2": 9}),
 }
 
 
@@ -643,28 +649,32 @@ def forced_eval(case, obs, mout):
     toks, hz, tail = parse_model(mout)
     if toks is None:
         return "model runner failed: " + tail, finds
+    pos = FORCED_MODEL[sc][1]
+    mp = {k: toks[i] for k, i in pos.items()}
+    if "dis" in toks:
+        return "the scenario is not a run of the model: " + " ".join(toks), finds
     if sc == "timeout-while-popped":
-        # model: ... pd 0 -> W ; wd 1 -> 1:T ; pd 2 -> W (nothing for the next poll)
-        want = {"poll1": "E", "pub": toks[toks.index("w1") + 2] if False else None}
-        mp = {"pub": "1:T", "poll1": "E", "poll2": "W" if "W" in toks[-2:] else toks[-2]}
+        want = {"pub": mp["pub"], "poll1": mp["poll1"], "poll2": mp["poll2"]}
         got = {"pub": f.get("pub"), "poll1": f.get("poll1"), "poll2": f.get("poll2")}
-        dis = None if got == mp else "implementation %s, model %s" % (got, mp)
+        dis = None if got == want else "implementation %s, model %s" % (got, want)
         if f.get("pub") == "1:T" and f.get("poll1") == "E" and f.get("poll2") in ("E", "W"):
             finds.append(("publish-racing-with-poll-timeout-is-lost", "forced: the poll timer fired while the publisher held the "
                           "popped responder; the publish reported success, the poll returned {} and the next poll found nothing"))
+        elif f.get("pub") == "1:T" and f.get("poll1") != "B7:42" and f.get("poll2") != "B7:42":
+            finds.append(("accepted-message-lost", "forced time-out while the responder is popped: %s" % got))
         return dis, finds
     if sc == "publish-before-register":
-        mp = {"pub": "1:T", "poll1": "E", "poll2": "B7:42"}
+        want = {"pub": mp["pub"], "poll1": mp["poll1"], "poll2": mp["poll2"]}
         got = {"pub": f.get("pub"), "poll1": f.get("poll1"), "poll2": f.get("poll2")}
-        dis = None if got == mp else "implementation %s, model %s" % (got, mp)
-        if f.get("pub") == "1:T" and f.get("poll2") != "B7:42":
+        dis = None if got == want else "implementation %s, model %s" % (got, want)
+        if f.get("pub") == "1:T" and f.get("poll1") != "B7:42" and f.get("poll2") != "B7:42":
             finds.append(("publish-before-responder-registration-is-lost", "forced: a publish completed between the poll's empty "
                           "check and the registration of its responder and was not returned by the next poll: %s" % got))
         return dis, finds
     if sc == "heartbeat-after-repoll":
-        mp = {"poll1": "B7:42", "poll2": "N", "pub2": "1:F"}
+        want = {"poll1": mp["poll1"], "poll2": mp["poll2"], "pub2": mp["pub2"]}
         got = {"poll1": f.get("poll1"), "poll2": f.get("poll2"), "pub2": f.get("pub2")}
-        dis = None if got == mp else "implementation %s, model %s" % (got, mp)
+        dis = None if got == want else "implementation %s, model %s" % (got, want)
         return dis, finds
     return "unknown scenario", finds
 
@@ -712,6 +722,17 @@ def run(ctx):
                    {"case": first, "stderr": err[-2000:], "failing_input": True})
         cases = [c for c in cases if c["id"] in byid]
 
+    # ---- which message() does the tree under test have?  The history of C19_refuted_timeout_window is
+    # case 1: if its last poll returns the message the tree carries the repair and the histories are
+    # replayed through Push.init_fixed (theorems C19_fixed_*), otherwise through Push.init.
+    variant = "pinned"
+    w = byid.get(1, {}).get("log", [])
+    if len(w) >= 5 and w[3]["e"] == "P1" and w[3]["r"] == "1:T" and w[4]["e"] == "L" and w[4]["r"] == "B7:42":
+        variant = "fixed"
+    ctx.note("model_variant", variant + (" (Push.init: message() as pinned)" if variant == "pinned" else
+                                         " (Push.init_fixed: a timed-out poll withdraws its responder; theorems C19_fixed_*)"))
+    pre = "F " if variant == "fixed" else ""
+
     # ---- model runs
     seq = [c for c in cases if c["kind"] == "seq"]
     norm = {}
@@ -719,10 +740,10 @@ def run(ctx):
     for c in seq:
         ev, amb = normalise_log(c, byid[c["id"]].get("log", []))
         norm[c["id"]] = (ev, amb)
-        lines.append(seq_model_line(ev))
+        lines.append(pre + seq_model_line(ev))
     mouts = hv.run_model("c19", lines) if lines else []
     forced = [c for c in cases if c["kind"] == "forced" and not byid[c["id"]].get("unsupported")]
-    fouts = hv.run_model("c19", [FORCED_MODEL[c["scenario"]] for c in forced]) if forced else []
+    fouts = hv.run_model("c19", [pre + FORCED_MODEL[c["scenario"]][0] for c in forced]) if forced else []
 
     disagreements = []        # (case, obs, text, hz)
     findings = {}             # key -> (size, case, obs, text)
@@ -749,7 +770,7 @@ def run(ctx):
             continue
         if amb:
             inconclusive += 1
-            continue
+            continue           # neither compared nor judged
         toks, hz, tail = parse_model(mout)
         if toks is None:
             disagreements.append((c, o, "model runner failed: " + tail, "0"))
@@ -784,6 +805,12 @@ def run(ctx):
         ctx.count_case("forced|%s" % c["scenario"], True)
         ctx.bump("forced_scenarios", c["scenario"])
         d, finds = forced_eval(c, o, mout)
+        if c["scenario"] == "heartbeat-after-repoll" and (o.get("forced") or {}).get("poll2") == "N":
+            ctx.note("observed_heartbeat_registered_after_repoll",
+                     "forced: the heartbeat goroutine started by a delivery registered its signal only after the client's "
+                     "next poll had begun; it was never cancelled, fired, took every topic of the polling client offline "
+                     "(the waiting poll returned nil, the next publish was refused). No accepted message is lost by this, "
+                     "so it is recorded as an observation, not as a violation of C19; the model shows the same run")
         if d:
             disagreements.append((c, o, d, "1"))
         else:
@@ -803,7 +830,7 @@ def run(ctx):
     ctx.note("disagreeing_cases", len(disagreements))
 
     for key, (size, c, o, text) in sorted(findings.items()):
-        wit = {KNOWN_KEY: "C19_refuted_timeout_window",
+        wit = {KNOWN_KEY: "C19_refuted_timeout_window (C19_exactly_once_partial: second kind of hazardous step)",
                "publish-racing-with-poll-timeout-is-lost": "C19_exactly_once_partial (first kind of hazardous step)"}.get(key)
         ctx.report(key, text, {"case": short_case(c), "observation": o, "failing_input": True, "coq_witness": wit})
     if disagreements and not findings:
@@ -843,7 +870,7 @@ def replay(ctx, path):
         why, stats = stress_oracle(case, o)
         print("stats:", stats)
     else:
-        m = hv.run_model("c19", [FORCED_MODEL[case["scenario"]]])[0]
+        m = hv.run_model("c19", [FORCED_MODEL[case["scenario"]][0]])[0]
         print("observed:", json.dumps(o.get("forced")))
         print("model   :", m)
         d, why = forced_eval(case, o, m)
